@@ -32,6 +32,15 @@ TEMPLATES = [
 ]
 
 
+# damages found by the thorough tier's two-edit simulation, kept in every run (the quick tier samples only 300 two-edit files)
+PINNED = [
+    # F47: a definition keyword inside a type body + a lost `)`: the restarted definition's generic parameter list
+    {"edits": [{"k": "rep", "p": 12, "x": ":"}, {"k": "rep", "p": 7, "x": "type"}],
+     "items": [{"kind": "type", "lex": "type T2 ( a ) { type ( inner : a : }".split(" "), "name": "T2", "victim": True},
+               {"kind": "fn", "lex": "fn f4 ( r ) { use v <- try ( r ) # ( v , fn ( q ) { q } ) }".split(" "), "name": "f4", "victim": False},
+               {"kind": "import", "lex": "import k as j".split(" "), "name": "k", "victim": False}]},
+]
+
 FOLLOWERS = {"f1", "f2", "T1", "T2", "c1", "c2", "k", "A1", "f5"}   # every way the next definition can start
 
 
@@ -87,6 +96,7 @@ def run(out, tier, seed):
         vlib.require_ok(r2, j["name"])
         out.add_tlc(r2, "GEN simulation k=2, files of 3 definitions")
         cases += list(r2.cases())
+    cases += PINNED
     s = run_cases(out, cases, "main")
     out.cov["traces_validated_against_impl"] += s["cases"]
     out.cov["evaluations"] += s["cases"]
